@@ -70,6 +70,14 @@ package agent
 // C15: a reverse port forward is recorded with the ids, addresses and ports the callback carries, and its
 // dial target is the forward address and the forward port (not the local one)
 //@   guard-call fwd: "PortFwdNew" arg(0) == a && arg(1) == SocktID && arg(2) == LclAddr && arg(3) == LclPort && arg(4) == FwdAddr && arg(5) == FwdPort && lastarg(Int32ToIpString, 0) == FwdAddr && arg(6) == lastresult(Int32ToIpString) + ":" + ufs_itoa(FwdPort)
+// C15: data for a reverse port forward is written to the forward with the callback's socket id - also the
+// first chunk, the one that makes the server dial: the reader goroutine is only started once that chunk was written
+//@   guard-call fwddata:  "PortFwdWrite" arg(0) == a && arg(1) == SocktID && sameslice(arg(2), Data)
+//@   guard-call fwdfirst: "TaskDispatch[$]1" lastarg(PortFwdWrite, 1) == SocktID
+// C09: a link is looked up under the session name of the id in the inner header: eight hex digits
+//@   guard-call idfmt: "Sprintf" (inscope("AgentHdr") && len(arg(1)) == 1 && typeis(arg(1)[0], int) && unboxed(arg(1)[0], int) == AgentHdr.AgentID && !contains(arg(0), " ")) ==> arg(0) == "%08x"
+// C03/C10: the kill date an agent reports is the 64-bit value it sent
+//@   guard-store killdate: "AgentInfo[.]KillDate" storedvalue() == lastresult(ParseInt64)
 // C09: a disconnect callback detaches, from the reporting agent, the child whose id the callback carries
 //@   guard-call unlink: "LinkRemove" arg(1) == a && arg(2) == lastresult(AgentInstance) && lastarg(AgentInstance, 1) == lastresult(ParseInt32)
 // C07: a file chunk / close callback names the transfer by the big-endian id in its
